@@ -366,6 +366,8 @@ Definition s_sbcov : bytes := Eval vm_compute in bs "sbcov".
 Definition s_getmap : bytes := Eval vm_compute in bs "getmap".
 Definition s_smap : bytes := Eval vm_compute in bs "smap".
 
+Definition s_splithead : bytes := Eval vm_compute in bs "splithead".
+
 End Atoms.
 Export Atoms.
 
@@ -777,6 +779,17 @@ Definition run_split (args : list sexp) : err sexp :=
       odo l <- ok (split_by_len s e b);
       OEmit (SL (SA s_sp :: map sx_pair l))
         (odo r <- ok (rsplit_by_len W64 s e b);
+         OEmit (SL (SA s_rsp :: map sx_pair r)) ODone))
+  | _ => Bad m_args
+  end.
+(* (splithead s e b k): the first k pieces of both tilings, for records with far too many pieces to enumerate *)
+Definition run_splithead (args : list sexp) : err sexp :=
+  match args with
+  | [s; e; b; k] =>
+    with_panic (odo s <- num s; odo e <- num e; odo b <- num b; odo k <- num k;
+      odo l <- ok (split_head s e b k);
+      OEmit (SL (SA s_sp :: map sx_pair l))
+        (odo r <- ok (rsplit_head W64 s e b k);
          OEmit (SL (SA s_rsp :: map sx_pair r)) ODone))
   | _ => Bad m_args
   end.
@@ -1260,6 +1273,7 @@ Definition run_case_err (x : sexp) : err sexp :=
     else if is_ s_sbcov k then run_sbcov args
     else if is_ s_alg k then run_alg args
     else if is_ s_split k then run_split args
+    else if is_ s_splithead k then run_splithead args
     else if is_ s_merge k then run_merge args
     else if is_ s_bg k then run_bg args
     else if is_ s_fmt k then run_fmt args
